@@ -181,6 +181,11 @@ def r2_rewiring(ctx):
       for m, sides in eq:
         if sn.id in g.reachable([d for d, lab in g.succ[m.id] if lab == 'T']) and sn.id not in g.reachable([d for d, lab in g.succ[m.id] if lab == 'F'], blocked={x.id for x in g.nodes if x.kind in ('for', 'while')}):
           okg = True
+      # the same fact written as a guard clause (`if operand != tensor id: continue` before the store)
+      for fact in common.facts_at(f.node, st):
+        if isinstance(fact, ast.Compare) and len(fact.ops) == 1 and isinstance(fact.ops[0], ast.Eq) \
+            and any(defuse.norm(x).endswith('tensor_id') for x in (fact.left, fact.comparators[0])):
+          okg = True
       ctx.check(R, okg, st, f, st, 'the store is not guarded by equality of the operand with the source tensor: unrelated operands are rewired')
       rhs = defuse.norm(st.value)
       ctx.check(R, 'new_tensor_id' in rhs, st, f, st, 'operands must be rewired to the newly created tensor')
@@ -208,6 +213,8 @@ def r3_io_coupdate(ctx):
       sn = g.node_of(st)
       guards = [m for m in g.nodes if m.kind == 'if' and g.every_path_passes(g.entry.id, sn.id, {m.id})]
       tests = [defuse.norm(m.ast.test).replace(' ', '') for m in guards]
+      # plus the facts that hold at the store through guard clauses (`if entry != tensor id: continue`)
+      tests += [defuse.norm(x).replace(' ', '') for x in common.facts_at(f.node, st)]
       covers = any(t.startswith('-1in') and t.endswith('consumers') for t in tests) or any(t.endswith('<0') or t.endswith('==-1') for t in tests)
       ctx.check(R, covers, st, f, st,
                 'subgraph.outputs is rewired although the instruction does not cover the graph output (-1 not among its consumers): '
